@@ -1,9 +1,53 @@
-"""C01 — every operator's adjoint is its true adjoint (see props/linop_common.py)."""
+"""C01 — every operator's adjoint is its true adjoint (see props/linop_common.py).
+
+Besides the operator-tree machinery this file runs one extra stream: the Wavelet / InverseWavelet operators with the
+NON-orthogonal wavelet names PyWavelets offers (biorthogonal families).  The class accepts them, returns the inverse
+transform as `.H`, and for those families the inverse is not the adjoint — an open known finding of the pinned tree
+(known_findings.json, signature C01:wavelet-nonorthogonal-adjoint); the operator trees of the main stream use the
+orthogonal families only (C10's domain).
+"""
+import json
+import numpy as np
+from vlib import core
 from props import linop_common
+
+NONORTH = ["bior2.2", "rbio1.3", "bior3.5", "bior1.3", "rbio2.4", "bior4.4", "rbio3.1"]
+
+
+def nonorthogonal_wavelet_stream(ctx):
+    sp = core.import_sigpy()
+    import pywt
+    rng = ctx.rng
+    first = None
+    for k in range(ctx.n(24, 200)):
+        name = NONORTH[k % len(NONORTH)]
+        if pywt.Wavelet(name).orthogonal:
+            continue
+        nd = rng.choice([1, 1, 2])
+        sh = [rng.randint(24, 48) for _ in range(nd)]
+        axes = None if rng.random() < 0.5 else [rng.randrange(-nd, nd)]
+        inverse = bool(k % 2)
+        W = sp.linop.Wavelet(sh, wave_name=name, axes=axes)
+        A = W.H if inverse else W
+        rs = np.random.RandomState(rng.randrange(2 ** 31))
+        x = rs.randn(*A.ishape) + 1j * rs.randn(*A.ishape)
+        y = rs.randn(*A.oshape) + 1j * rs.randn(*A.oshape)
+        lhs, rhs = np.vdot(y, A(x)), np.vdot(A.H(y), x)
+        err = abs(lhs - rhs) / (np.linalg.norm(A(x)) * np.linalg.norm(y) + 1e-30)
+        ctx.count("C01:wavelet-nonorthogonal:" + ("inverse" if inverse else "forward"),
+                  key=json.dumps([name, sh, axes, inverse]), nontrivial=True,
+                  sample={"wave_name": name, "shape": sh, "axes": axes, "dot_error": float(err)})
+        if err > 1e-9 and first is None:
+            first = dict(kind="oracle", operator="%s(%s, wave_name=%r, axes=%r)" % ("Wavelet" if not inverse else "Wavelet.H = InverseWavelet", sh, name, axes),
+                         lhs=str(lhs), rhs=str(rhs), relative_error=float(err), x=np.ravel(x)[:8].tolist().__repr__())
+    if first is not None:
+        ctx.violation("C01: Wavelet with a non-orthogonal (biorthogonal) wavelet name: .H is the inverse transform, not the adjoint",
+                      first, signature="C01:wavelet-nonorthogonal-adjoint")
 
 
 def run(ctx):
     linop_common.run_linop(ctx, "C01", "Prop_C01.v", 150, 4000, {"adj", "shapes", "applyH", "dot"})
+    nonorthogonal_wavelet_stream(ctx)
 
 
 def replay(obj):
